@@ -6,7 +6,7 @@ WT=/tmp/wt-matrix
 cd /repo && git worktree remove --force $WT 2>/dev/null; git worktree add -q --detach $WT HEAD
 cd /verif
 seeds="$@"
-[ -z "$seeds" ] && seeds=$(ls /verif/seeded)
+[ -z "$seeds" ] && seeds=$(cd /verif/seeded && ls -d */ | tr -d /)
 for s in $seeds; do
   prop=${s%%-*}
   (cd $WT && git checkout -q -- . && git apply /verif/seeded/$s/patch.diff) || { echo "$s APPLY_FAIL"; continue; }
